@@ -95,6 +95,7 @@ func (c *ctxObj) cancel(err value) {
 		return
 	}
 	c.err = err
+	raceRelease(c)
 	if c.done == nil {
 		c.done = newChannel(0, types.NewStruct(nil, nil))
 		c.done.closed = true
@@ -160,6 +161,9 @@ func init() {
 			// background: never done; a nil channel blocks forever
 			return (*channel)(nil)
 		}
+		if c.err != nil {
+			raceAcquire(c)
+		}
 		return c.doneChan()
 	})
 	ext("(*context.cancelCtx).Err", func(fr *frame, a []value) value {
@@ -167,6 +171,7 @@ func init() {
 		if c.err == nil {
 			return iface{}
 		}
+		raceAcquire(c)
 		return c.err
 	})
 	ext("(*context.cancelCtx).Value", func(fr *frame, a []value) value {
